@@ -14,13 +14,16 @@ import PgVerif.Proofs.ArraysEnc
 import PgVerif.Proofs.ArraysTables
 namespace PgVerif.Props.C07
 open PgVerif PgVerif.Model.Arrays PgVerif.Proofs.Arrays
-open PgVerif.Spec.Arrays (PgArray Datum encArray view viewElems pgArrayTypes)
+open PgVerif.Spec.Arrays (PgArray Datum encArray view viewElems elemView elemValue emptyValue pgArrayTypes)
 
 /-- For EVERY element decoder `dec` and every well-formed array — any array type of the table, 0..6 dimensions, any
-lower bounds, any number of elements up to PostgreSQL's MaxArraySize, any NULL pattern (none … all), fixed elements of
+lower bounds, any number of elements up to PostgreSQL's MaxArraySize, any NULL pattern (none … all; also a stored
+bitmap without any NULL), fixed elements of
 any width/alignment, varlena elements with short or long headers of any length — decoding the stored value yields the
 elements in storage (row-major) order: nil exactly at the NULL positions, and at every other position the scalar
-decoding (`dec`) of exactly that element's bytes with the element type's oid.  If `dec` faults (panics) on some
+decoding (`dec`) of exactly that element's bytes with the element type's oid (`Spec.Arrays.elemView`: a
+variable-length element whose payload is empty is the empty string for text, varchar, bpchar, xml and `\\x` for bytea —
+a value, not NULL — and `dec` of the empty byte string for any other type).  If `dec` faults (panics) on some
 element, the array decoding faults, and on the first such element in storage order.  The empty array (ndim = 0) yields
 the empty list. -/
 theorem C07_elems (dec : Dec) (a : PgArray) (h : a.WF) :
@@ -28,18 +31,33 @@ theorem C07_elems (dec : Dec) (a : PgArray) (h : a.WF) :
   decodeType_enc dec a h
 
 /-- The same for an element decoder that never faults, in closed form: the result is the list of the elements with
-`nil` for NULL and `f payload elemOid` otherwise. -/
+`nil` for NULL and otherwise `f payload elemOid` — except that a variable-length element with an empty payload of a
+text-like type is the empty string (`\\x` for bytea), a value distinct from NULL (`Spec.Arrays.elemValue`). -/
 theorem C07_elems_pure (f : Bytes → Nat → GoVal) (a : PgArray) (h : a.WF) :
     decodeType (fun b o => .ok (f b o)) (encArray a) a.et.arrayOid
-      = .ok (.arr (a.elems.map fun e => match e with | none => .nil | some d => f d.payload a.et.decodeAs)) := by
+      = .ok (.arr (a.elems.map fun e => match e with | none => .nil | some d => elemValue f a.et.decodeAs d)) := by
   rw [C07_elems _ a h]
   unfold view
+  have he : ∀ d : Datum, elemView (fun b o => .ok (f b o)) a.et.decodeAs d = .ok (elemValue f a.et.decodeAs d) := by
+    intro d
+    cases d with
+    | fixed bs => rfl
+    | short p =>
+      simp only [elemView, elemValue]
+      split
+      · cases emptyValue a.et.decodeAs <;> rfl
+      · rfl
+    | long p =>
+      simp only [elemView, elemValue]
+      split
+      · cases emptyValue a.et.decodeAs <;> rfl
+      · rfl
   have hv : ∀ es : List (Option Datum), viewElems (fun b o => .ok (f b o)) a.et.decodeAs es
-      = .ok (es.map fun e => match e with | none => GoVal.nil | some d => f d.payload a.et.decodeAs) := by
+      = .ok (es.map fun e => match e with | none => GoVal.nil | some d => elemValue f a.et.decodeAs d) := by
     intro es
     induction es with
     | nil => rfl
-    | cons e es ih => cases e <;> simp [viewElems, ih]
+    | cons e es ih => cases e <;> simp [viewElems, ih, he]
   rw [hv]; rfl
 
 /-- The empty array is reported as an empty list (a value), not as nil (which is how a NULL is reported). -/
@@ -48,7 +66,7 @@ theorem C07_empty (dec : Dec) (a : PgArray) (h : a.WF) (hd : a.dims = []) :
   rw [C07_elems dec a h]
   obtain ⟨_, _, _, _, _, hcnt, _⟩ := h
   rw [if_pos hd] at hcnt
-  unfold view; rw [hcnt]; rfl
+  unfold view; rw [hcnt.1]; rfl
 
 /-- The array tables of the code, observed by executing it (Generated/Arrays.lean: which oids DecodeType treats as
 arrays; with which width — or as varlenas — and with which alignment it reads their elements; which scalar decoder it
@@ -64,7 +82,8 @@ theorem C07_tables :
     (∀ r ∈ Generated.Arrays.layout, (arrayElemTypes.lookup r.1).map elemLayout = some (r.2.1, decide (0 < r.2.1), r.2.2)) := by
   refine ⟨by decide, by decide, gen_layout⟩
 
-/-- non-vacuity: `{1,NULL,3}::int4[]` (one dimension, lower bound 1, a NULL in the middle), a two-dimensional
+/-- non-vacuity: `{1,NULL,3}::int4[]` (one dimension, lower bound 1, a NULL in the middle),
+`{1,2}::int4[]` stored with an all-present null bitmap, a two-dimensional
 `macaddr[]` (6-byte elements with 4-byte alignment, lower bounds 0 and −5), a `text[]` mixing a short-header, a NULL
 and a long-header element, and the empty `timetz[]` are all well-formed -/
 example :
@@ -73,16 +92,17 @@ example :
     let text := pgArrayTypes.getD 8 default
     let timetz := pgArrayTypes.getD 31 default
     int4.arrayOid = 1007 ∧ mac.arrayOid = 1040 ∧ text.arrayOid = 1009 ∧ timetz.arrayOid = 1270 ∧
-    (⟨int4, [3], [1], [some (.fixed [1, 0, 0, 0]), none, some (.fixed [3, 0, 0, 0])]⟩ : PgArray).WF ∧
-    (⟨mac, [2, 1], [0, -5], [some (.fixed [1, 2, 3, 4, 5, 6]), some (.fixed [7, 8, 9, 10, 11, 12])]⟩ : PgArray).WF ∧
-    (⟨text, [3], [1], [some (.short [97]), none, some (.long [98, 98])]⟩ : PgArray).WF ∧
-    (⟨timetz, [], [], []⟩ : PgArray).WF := by
+    (⟨int4, [3], [1], [some (.fixed [1, 0, 0, 0]), none, some (.fixed [3, 0, 0, 0])], false⟩ : PgArray).WF ∧
+    (⟨int4, [2], [1], [some (.fixed [1, 0, 0, 0]), some (.fixed [2, 0, 0, 0])], true⟩ : PgArray).WF ∧
+    (⟨mac, [2, 1], [0, -5], [some (.fixed [1, 2, 3, 4, 5, 6]), some (.fixed [7, 8, 9, 10, 11, 12])], false⟩ : PgArray).WF ∧
+    (⟨text, [3], [1], [some (.short [97]), none, some (.long [98, 98])], false⟩ : PgArray).WF ∧
+    (⟨timetz, [], [], [], false⟩ : PgArray).WF := by
   decide
 
 /-- … and the encoder lays `{1,NULL,3}` out as PostgreSQL does: dataoffset 32 counted from the varlena start, bitmap
 byte 0b101, seven bytes of padding, the two stored elements -/
 example :
-    encArray ⟨pgArrayTypes.getD 6 default, [3], [1], [some (.fixed [1, 0, 0, 0]), none, some (.fixed [3, 0, 0, 0])]⟩
+    encArray ⟨pgArrayTypes.getD 6 default, [3], [1], [some (.fixed [1, 0, 0, 0]), none, some (.fixed [3, 0, 0, 0])], false⟩
       = [1, 0, 0, 0, 32, 0, 0, 0, 23, 0, 0, 0, 3, 0, 0, 0, 1, 0, 0, 0, 5, 0, 0, 0, 0, 0, 0, 0, 1, 0, 0, 0, 3, 0, 0, 0] := by
   decide
 
